@@ -6,17 +6,9 @@ from props import _fetch
 
 LEVEL = "proof"
 MODULE = "Phil.Props.C05"
-LEVEL_TEXT = ("Lean theorems about the merge model: for a non-multiple definition the fetched words are those of the last matching "
-              "active source definition, else the master's (last_wins); concatenating the object lists of several sources is the "
-              "same as one source with the concatenated list (by the definition of fetch on the combined list: split law); the "
-              "multiple branch keeps later duplicates and drops template-equal instances. The model is tied to /repo by a "
-              "correspondence run of fetch+extract; the oracle compares the implementation with an independent reference reading "
-              "of the rules (last value wins; list rule for .multiple definitions outside multiple scopes) and with metamorphic "
-              "rewritings of the sources (split at any top-level boundary, nested <-> dotted spelling, interleaving unrelated "
-              "parameters).")
-LEVEL_NOTE = ("Reference model covers definitions without a .multiple ancestor; multiple scopes are covered by the metamorphic "
-              "laws and by correspondence with the Lean model. Variable-free sources.")
-TECHNIQUE = "Lean 4 theorems (last-wins, split law) on the fetch model + differential correspondence + reference-model and metamorphic oracle"
+LEVEL_TEXT = "Lean theorems about the merge model: last value wins at every depth (last_value_wins_at_depth), the split law and dependence on the flattened source list only (split_law, fetch_depends_on_flatten), the multiple-list rule as a closed form: template (or the master's own fetched block when .optional=False) then the dedupKeepLast survivors of the candidates that differ from the default, for .multiple definitions (multiple_list_rule(_at_depth)) and for .multiple scopes nested to any depth (multiple_scope_list_rule, result_view, fetch_ms_total). Tied to /repo by a correspondence run of fetch+extract; the oracle compares the implementation with an independent reference reading of the rules and with metamorphic rewrites (split at any top-level boundary, nested<->dotted, interleaving, two-step merge)."
+LEVEL_NOTE = 'Closed form on masters with one occurrence per name (further master occurrences: general theorems + correspondence). Variable-free sources in the closed forms. Instance equality is by rendering (%.10g for floats: D42 family).'
+TECHNIQUE = 'Lean 4 closed form of fetch (last-wins, split law, multiple-list rule incl. .multiple scopes) + differential correspondence + reference/metamorphic oracle'
 RULE = ("masters x source lists; each case also rewritten by splitting sources at top-level boundaries, re-spelling dotted paths "
         "nested, and interleaving; non-trivial = some parameter receives two or more source values")
 ASSUMPTIONS = ["value conversion (types) is taken from the implementation; C05 is about which source words win"]
